@@ -70,7 +70,7 @@ CLAIMED = {
         technique="Coq theorems over R about every iterate of the relaxed Newton iteration (hand model tied to recorded solver iterations) + tested residuals of returned compositions",
         text=("proof, partial: proved for the step model — any solution of the Newton system satisfies the element and charge constraints; the relaxed update "
               "contracts every constraint residual by exactly (1-r) (so a satisfied constraint stays satisfied, a full step makes it exact); every iterate is "
-              "strictly positive for ARBITRARY Newton proposals and 0<r<=1; densities sum to P/kT, are positive and keep the constraint ratios. NOT proved: "
+              "strictly positive for ARBITRARY Newton proposals and 0<r<=1, hence (induction over any number of updates, any governor factors) every reachable iterate is, and its constraint residuals are the initial ones times a factor in [0,1]; densities sum to P/kT, are positive and keep the constraint ratios. NOT proved: "
               "that the returned iterate has seen a full step / that round-off keeps residuals at the double-precision floor, and finiteness — these are tested "
               "on generated mixtures (shipped and synthetic chemistries, random order) at 1e-11."),
         note=("Trusted: Coq kernel; Reals axioms as printed; hand-written Gibbs.v/RefEnergy.v tied to calculate_composition by recorded iterations through the "
@@ -81,9 +81,11 @@ CLAIMED = {
         technique="Coq theorems over R characterising fixed points of the Newton iteration as mass-action states + tested mass-action residuals with mu from the extracted kernels",
         text=("proof, partial: proved — the coded chemical potential depends on densities only; the species rows of the Newton system are the identity "
               "(mu_i+(A lam)_i)/kT = sum(N')/sum(N) - N'_i/N_i; a fixed point of the iteration is exactly a state with mu = -(A lam); such a state balances every "
-              "reaction (A^T nu = 0 => nu.mu = 0) and hence satisfies the Saha / Guldberg-Waage ratios. NOT proved: that the floating-point iteration reaches "
+              "reaction (A^T nu = 0 => nu.mu = 0) and hence satisfies the Saha / Guldberg-Waage ratios, and it is the global minimum of the ideal Gibbs function over all compositions "
+              "with the same element and charge totals (Gibbs' inequality). NOT proved: that the floating-point iteration reaches "
               "the fixed point for every input (the stopping rule bounds only the last Newton step of the resolved species); the residual of every un-warned returned composition "
-              "is tested at the floor the stopping rule resolves (1e-8 kT above x=1e-5, 1e-6 down to 1e-7) with mu evaluated by the extracted model kernels."),
+              "is tested at the floor the stopping rule resolves (1e-8 kT above x=1e-5, 1e-6 down to 1e-7) with mu evaluated both by the extracted model kernels and from an independent "
+              "documented-sum oracle; thm/C07.v (kernels = documented partition functions) is discharged as a prerequisite."),
         note=("Trusted: as C02; the reference-energy / Stewart-Pyatt model RefEnergy.v is hand-written and tied by recorded E0/dE/mu; least-squares projection "
               "in numpy for the tested part."),
         ref="§3-C01"),
@@ -123,7 +125,7 @@ CLAIMED = {
               "same value to every species for every listing order when (stoichiometry, charge) pairs are distinct (arg-max fold characterisation, any chain length, "
               "positive and negative ions); every regenerated transport block (all 13, straight from the generated text), both assembled linear systems with the code's right-hand sides, and every final "
               "formula (viscosity, k', D_ij, D^T_i, electrical conductivity, the total thermal-conductivity assembly) are equivariant / invariant under re-listing: any solution "
-              "re-indexed solves the re-listed system. NOT proved: equivariance of the converged composition solve (as C04) and that numpy's solver returns the re-indexed solution in floats; random permutations (incl. ion-before-parent orders) are compared on composition, species enthalpies and all scalar outputs."),
+              "re-indexed solves the re-listed system; starting from the species list itself, the matrices built for a re-listed list (model Qmix) give the original blocks at re-indexed positions. NOT proved: equivariance of the converged composition solve (as C04) and that numpy's solver returns the re-indexed solution in floats; random permutations (incl. ion-before-parent orders) are compared on composition, species enthalpies and all scalar outputs."),
         note="Trusted: as C02; tolerances as C04; electron-dependent conductivity compared above x_e=1e-7, emission when carried by resolved species.",
         ref="§3-C05"),
     "C10": dict(
@@ -174,7 +176,8 @@ CLAIMED = {
               "documented class (charged-charged Coulomb, electron-neutral, neutral-neutral, own-ion resonant charge transfer for odd l, elastic ion-neutral otherwise); "
               "the Coulomb integral is the documented closed form, positive when the logarithm dominates its order-dependent constant, with the stated (l,s) scaling; the "
               "constant-cross-section electron-neutral form equals its thermal average exactly (RESTRICTED to D2 = 0; the general law is validated against quadrature); the "
-              "temperature recursion used for unfitted orders has the documented form. NOT proved: positivity / finiteness of the fitted neutral-neutral and ion-neutral "
+              "temperature recursion used for unfitted orders has the documented form; the matrices handed to the transport routines (model Qmix of Qij_mix, tied by comparing whole "
+              "matrices, evaluated twice and in a second listing order) are symmetric and attached to the species, not to list positions. NOT proved: positivity / finiteness of the fitted neutral-neutral and ion-neutral "
               "integrals (validated for every species pair, all 16 consumed orders, 300..30000 K)."),
         note=("Trusted: Coq kernel; Reals axioms as printed; Coq-Interval for two numeric bounds; translator; scipy gamma as a parameter of the real instance; "
               "hand-written recursion wrapper and cross-section unpacking tied by the correspondence check (extracted model vs implementation, 1e-9 / 1e-6 on recursed orders)."),
@@ -185,7 +188,7 @@ CLAIMED = {
               "single-component un-ionised gas the regenerated qhat blocks with the model's right-hand side and final formula give exactly the textbook second-order "
               "Chapman-Enskog viscosity built from the gas's own (2,2), (2,3), (2,4) integrals; the electrical conductivity is zero without charges and non-negative when no "
               "species moves against its charge sign; the total thermal conductivity of a frozen composition is k' + sum hv D^T / T; for any mixture and any solution of the viscosity system the viscosity is a positive constant times the "
-              "quadratic form of the assembled qhat matrix at the solution (positivity of eta = positivity of that form). REFUTED (kernel-checked witnesses, recorded as "
+              "quadratic form of the assembled qhat matrix at the solution (positivity of eta = positivity of that form), and likewise for k' and the q matrix. REFUTED (kernel-checked witnesses, recorded as "
               "known findings with the failing states in corpus/C14): positivity of the total thermal conductivity with thermal-diffusion terms, non-negativity of the "
               "conductivity with negative ions. NOT proved: positivity / finiteness of viscosity, thermal conductivity and heat capacity of general mixtures — validated over "
               "the operating window (T 1000..25000 K, P 1e4..1e6 Pa incl. corners, element shares 2..98 %) on shipped and synthetic species sets."),
